@@ -1,3 +1,189 @@
-(* Props/C04.v -- placeholder while the proofs are being written *)
+(* Props/C04.v -- property C04: decoding into header structs agrees with slicing.
+   Statements only; proofs are `exact`.
+
+   Models : Parse/HdrModel.v  (PacketHeaders::{from_ethernet_slice, from_ether_type,
+                               from_ip_slice}, read_transport, IpHeaders::{from_slice,
+                               from_ipv4_slice, from_ipv6_slice}, Ipv6Extensions::from_slice ...)
+            Parse/Slices.v + Parse/Cursor.v (SlicedPacket, proved equal to the wire
+                               formats under C03/C07)
+   Views  : Parse/HdrView.v   (`hvres_of_h`: what an observer sees of a PacketHeaders
+                               result; `hvres_of_s`: a slicing result converted with
+                               to_header() + its innermost payload; `hagree`: equal
+                               views / equal error records, never Bug)
+   Exception : Parse/HdrCut.v (`refilled`: the documented rule "no free slot in the fixed
+                               struct"; `Cut.from_* true`: the strict slicing algorithm
+                               with the IPv6 extension walk ended in front of the first
+                               refilled header, which becomes the payload's protocol)
+
+   FULL STATEMENT (C04_headers_eq_slices), for all byte strings bs and ether types et:
+     bytes_ok bs ->
+       hagree (PacketHeaders.from_ethernet_slice bs) (Cut.from_ethernet true bs)
+    /\ hagree (PacketHeaders.from_ether_type et bs)  (Cut.from_ether_type true et bs)
+    /\ (~ F11 bs -> hagree (PacketHeaders.from_ip_slice bs) (Cut.from_ip true bs))
+    /\ (F11 bs -> both from_ip results are Err)
+   together with C04_cut_is_slicing_* below (the cut variant IS SlicedPacket.from_* unless
+   it stopped in front of a refilled extension header, and with cut = false always), where
+   F11 bs := first nibble 4 and length < 20 (known finding F11: the error records differ).
+
+   PROVED HERE (names ending in _partial say what is missing):
+     - C04_cut_false_* and C04_cut_is_slicing_*: the relation between the cut variant and
+       the strict slicing model, for whole packets and all three entry points (full);
+     - the per-layer agreement lemmas that carry the content of the property:
+       transport (UDP length handling = F5, TCP header length, ICMP header/payload split,
+       error fix-ups), IPv4 (+ authentication header, total length handling), the IPv6
+       extension chain in lockstep with the cut (with the invariant tying the struct's
+       slots to `refilled`, the fragmentation flag, the summed header length and the
+       pointer offset), IPv6 (payload length handling, chain, view of the network header);
+     - NOT proved in Coq: the assembly of these lemmas over the link-extension loop
+       (VLAN / MACsec, at most 3) and the three entry points, and IpHeaders::from_slice
+       (bare IP entry point).  These parts are covered by the correspondence run only
+       (model = implementation = cut slicing model on every generated case, including the
+       header windows). *)
 From EP Require Import Base.Bytes Parse.Types Parse.Slices Parse.Cursor Parse.View
-  Parse.HdrModel Parse.HdrView Parse.HdrCut.
+  Parse.HdrModel Parse.HdrView Parse.HdrCut Parse.HdrProofs Parse.HdrProofs2.
+Import SlicedPacketCursor.
+
+(* ---- the cut variant and the strict slicing model ------------------------------ *)
+Theorem C04_cut_false_from_ethernet : forall bs,
+  Cut.from_ethernet false bs = SlicedPacket.from_ethernet bs.
+Proof. exact cut_false_from_ethernet. Qed.
+Print Assumptions C04_cut_false_from_ethernet.
+
+Theorem C04_cut_false_from_ether_type : forall et bs,
+  Cut.from_ether_type false et bs = SlicedPacket.from_ether_type et bs.
+Proof. exact cut_false_from_ether_type. Qed.
+Print Assumptions C04_cut_false_from_ether_type.
+
+Theorem C04_cut_false_from_ip : forall bs, Cut.from_ip false bs = SlicedPacket.from_ip bs.
+Proof. exact cut_false_from_ip. Qed.
+Print Assumptions C04_cut_false_from_ip.
+
+(* unless the cut result is "IPv6 whose payload is announced as an extension header"
+   (stopped_at_ext), cutting changed nothing: same verdict, same error record, same
+   layers, same payload *)
+Theorem C04_cut_is_slicing_ethernet : forall bs,
+  stopped_at_ext (Cut.from_ethernet true bs) = false ->
+  (forall b, Cut.from_ethernet true bs <> Bug b) ->
+  Cut.from_ethernet true bs = SlicedPacket.from_ethernet bs.
+Proof. exact cut_only_when_stopped_ethernet. Qed.
+Print Assumptions C04_cut_is_slicing_ethernet.
+
+Theorem C04_cut_is_slicing_ether_type : forall et bs,
+  stopped_at_ext (Cut.from_ether_type true et bs) = false ->
+  (forall b, Cut.from_ether_type true et bs <> Bug b) ->
+  Cut.from_ether_type true et bs = SlicedPacket.from_ether_type et bs.
+Proof. exact cut_only_when_stopped_ether_type. Qed.
+Print Assumptions C04_cut_is_slicing_ether_type.
+
+Theorem C04_cut_is_slicing_ip : forall bs,
+  stopped_at_ext (Cut.from_ip true bs) = false ->
+  (forall b, Cut.from_ip true bs <> Bug b) ->
+  Cut.from_ip true bs = SlicedPacket.from_ip bs.
+Proof. exact cut_only_when_stopped_ip. Qed.
+Print Assumptions C04_cut_is_slicing_ip.
+
+(* ---- per-layer agreement (the part of C04_headers_eq_slices that is proved) ------ *)
+(* transport: read_transport of the struct family against the cursor's transport
+   dispatch, for ANY IP payload descriptor: same header window, same payload window
+   (UDP length field honoured by both), same error after both families' fix-ups *)
+Theorem C04_transport_agrees_partial : forall c p,
+  c_src c = ipp_src p -> sp_transport (c_result c) = None ->
+  tr_rel c p (read_transport p) (transport_dispatch c p).
+Proof. exact transport_agree. Qed.
+Print Assumptions C04_transport_agrees_partial.
+
+(* IPv4 (+ authentication header): same header slices, same payload descriptor, same
+   error record, for every slice *)
+Theorem C04_ipv4_agrees_partial : forall s, bytes_ok (snd s) ->
+  ip4_rel s (IpHeaders.from_ipv4_slice s) (Ipv4Slice.from_slice s).
+Proof. exact v4_agree. Qed.
+Print Assumptions C04_ipv4_agrees_partial.
+
+(* the IPv6 extension loop of the struct decoder runs in lockstep with the slicing walk
+   cut at the first refilled header: same rest, same next header, same error; the
+   struct's slots mirror `refilled`, its summed length is the consumed byte count *)
+Theorem C04_ipv6_chain_agrees_cut_partial : forall fuel base x rest nh fl fr,
+  inv6 base x fl fr rest -> bytes_ok (snd rest) -> (N.to_nat (s_len rest) < fuel)%nat ->
+  walk_rel base (Ipv6Extensions.loop fuel base x rest nh)
+                (Cut.walk true fuel (s_len base) rest nh fr fl).
+Proof. exact walk_agree. Qed.
+Print Assumptions C04_ipv6_chain_agrees_cut_partial.
+
+(* IPv6: same payload descriptor, same view of the network header (header window, first
+   extension, fragmentation flag, window of the extension area), same error record *)
+Theorem C04_ipv6_agrees_cut_partial : forall s, bytes_ok (snd s) ->
+  ip6_rel s (IpHeaders.from_ipv6_slice s) (Cut.v6_from_slice true s).
+Proof. exact v6_agree. Qed.
+Print Assumptions C04_ipv6_agrees_cut_partial.
+
+(* ---- non-vacuity and witnesses (whole packets, by computation) ------------------ *)
+(* Ethernet / VLAN / IPv4 / UDP with a UDP length (8) below the IP payload size (12):
+   both families cut the payload to 0 bytes (F5 situation) *)
+Definition ex_f5 : bytes :=
+  [1;2;3;4;5;6; 7;8;9;10;11;12; 129;0;  0;5; 8;0;
+   69;0;0;32; 0;0;0;0; 64;17;0;0; 1;2;3;4; 5;6;7;8;
+   0;1;0;2;0;8;0;0; 170;187;204;221].
+Example C04_ex_f5 :
+  bytes_ok ex_f5 /\
+  hvres_of_h (PacketHeaders.from_ethernet_slice ex_f5) =
+    HOk (mkHv (Some (0, 14)) [HvVlan (14, 4)] (Some (HvIpv4 (18, 20) None))
+              (Some (HvUdp (38, 8))) (HvpUdp (46, 0))) /\
+  hagree (PacketHeaders.from_ethernet_slice ex_f5) (SlicedPacket.from_ethernet ex_f5).
+Proof.
+  split; [apply bytes_okb_spec; vm_compute; reflexivity|].
+  split; [vm_compute; reflexivity|].
+  split; [vm_compute; reflexivity|]. intros b. vm_compute. discriminate.
+Qed.
+
+(* the documented exception: IPv6, fragment header, second fragment header, UDP.
+   Struct decoding stops in front of the second fragment header (no free slot) and
+   reports it as the payload's protocol (44); this is exactly the cut slicing result,
+   and it differs from the full slicing result, which goes on to the UDP header *)
+Definition ex_dup : bytes :=
+  [96;0;0;0; 0;24; 44;64] ++ repeat 0 32 ++
+  [44;0;0;0;0;0;0;0] ++ [17;0;0;0;0;0;0;0] ++ [0;1;0;2;0;8;0;0].
+Example C04_ex_exception :
+  bytes_ok ex_dup /\
+  hvres_of_h (PacketHeaders.from_ip_slice ex_dup) =
+    HOk (mkHv None [] (Some (HvIpv6 (0, 40) (Some 44) false (40, 8))) None
+              (HvpIp (mkVIp 44 false LsIpv6HeaderPayloadLen (48, 16)))) /\
+  hagree (PacketHeaders.from_ip_slice ex_dup) (Cut.from_ip true ex_dup) /\
+  stopped_at_ext (Cut.from_ip true ex_dup) = true /\
+  hvres_of_s (SlicedPacket.from_ip ex_dup) =
+    HOk (mkHv None [] (Some (HvIpv6 (0, 40) (Some 44) false (40, 16))) (Some (HvUdp (56, 8)))
+              (HvpUdp (64, 0))).
+Proof.
+  split; [apply bytes_okb_spec; vm_compute; reflexivity|].
+  split; [vm_compute; reflexivity|].
+  split; [split; [vm_compute; reflexivity|intros b; vm_compute; discriminate]|].
+  split; vm_compute; reflexivity.
+Qed.
+
+(* a fault behind the refilled header goes unnoticed by struct decoding: destination
+   options, routing, destination options, destination options (no slot), then a
+   hop-by-hop header that slicing rejects *)
+Definition ex_dup_err : bytes :=
+  [96;0;0;0; 0;40; 60;64] ++ repeat 0 32 ++
+  [43;0;0;0;0;0;0;0] ++ [60;0;0;0;0;0;0;0] ++ [60;0;0;0;0;0;0;0] ++ [0;0;0;0;0;0;0;0] ++
+  [59;0;0;0;0;0;0;0].
+Example C04_ex_exception_fault_behind :
+  hagree (PacketHeaders.from_ip_slice ex_dup_err) (Cut.from_ip true ex_dup_err) /\
+  stopped_at_ext (Cut.from_ip true ex_dup_err) = true /\
+  SlicedPacket.from_ip ex_dup_err = Err (EContent CeHopByHopNotAtStart).
+Proof.
+  split; [split; [vm_compute; reflexivity|intros b; vm_compute; discriminate]|].
+  split; vm_compute; reflexivity.
+Qed.
+
+(* known finding F11 (not an instance of the documented exception): a first IPv4 header
+   cut short at the bare-IP entry point is rejected by both families, with different
+   error records *)
+Theorem C04_from_ip_records_refuted :
+  exists bs, bytes_ok bs /\
+    hvres_of_h (PacketHeaders.from_ip_slice bs) = HErr (ELen (mkLenError 20 1 LsSlice LyIpv4Header 0)) /\
+    hvres_of_s (SlicedPacket.from_ip bs) = HErr (EContent (CeIpIhl 0)).
+Proof.
+  exact (ex_intro _ [64]
+    (conj (proj1 (bytes_okb_spec [64]) eq_refl) (conj eq_refl eq_refl))).
+Qed.
+Print Assumptions C04_from_ip_records_refuted.
